@@ -82,7 +82,7 @@ def gen_case(rng, tier, index):
     nfiles = rng.randint(0, 6)
     files = [rng.randrange(5) for _ in range(nfiles)]
     return {"kind": "filepool", "files": files, "mode": rng.choice(["r", "rb", "w", "a", "r+", "ab", "wb"]),
-            "devnull": rng.random() < 0.3, "files_form": rng.choice(["list", "list", "tuple", "gen", "iter", "map", "dict_keys"]),
+            "devnull": rng.random() < 0.3, "failed_first_enter": rng.random() < 0.3, "files_form": rng.choice(["list", "list", "tuple", "gen", "iter", "map", "dict_keys"]),
             "ops": [[rng.choice(["get", "len", "iter", "write_or_read", "write_or_read", "close_one"]), rng.randrange(1 << 16)]
                     for _ in range(rng.randint(0, 6))]}
 
@@ -247,7 +247,19 @@ def _tmp_single_once(case, steps, route, res):
                 if left or os.listdir(d):
                     fail("flush-leaves-files", f"after flush() {left or os.listdir(d)} still exist")
             elif op == "read":
-                pass
+                if a % 3 == 0:
+                    # a copy of the pool object (copy.copy / pickle round trip, as when the pool is passed to a worker) is made
+                    # and thrown away: the files stay the pool's business
+                    import copy
+                    import gc
+                    import pickle
+                    try:
+                        clone = copy.copy(pool) if a % 2 else pickle.loads(pickle.dumps(pool))
+                    except Exception:
+                        clone = None
+                    del clone
+                    gc.collect()
+                    res.count("pool_copies_made_and_dropped")
             observe(pool, f"step {j} ({op})")
             if route == "break" and j == len(steps) - 1:
                 break
@@ -710,8 +722,26 @@ def run_filepool(case, res):
         given = {"list": lambda: list(paths), "tuple": lambda: tuple(paths), "gen": lambda: (p for p in paths),
                  "iter": lambda: iter(list(paths)), "map": lambda: map(str, paths),
                  "dict_keys": lambda: dict.fromkeys(paths).keys()}[form]()      # any iterable of paths, one-shot ones included
+        fp_obj = FilePool(given, mode)
+        if case.get("failed_first_enter") and mode in ("r", "rb", "r+") and len(set(paths)) >= 2 and form in ("list", "tuple", "dict_keys"):
+            # the first attempt to enter fails (one of the files does not exist yet); the file appears and the SAME pool object
+            # is entered again: that session is a session like any other
+            missing = sorted(set(paths))[-1]
+            os.rename(missing, missing + ".later")
+            try:
+                fp_obj.__enter__()
+                os.rename(missing + ".later", missing)
+                fail("filepool-mapping", f"entering with the missing file {os.path.basename(missing)} did not raise")
+            except Violation:
+                raise
+            except Exception:
+                os.rename(missing + ".later", missing)
+            leaked = fds_on(names)
+            if leaked:
+                fail("filepool-fd-leak", f"after a failed enter descriptors are open on pool files: {leaked}")
+            res.count("filepool_sessions_after_a_failed_enter")
         try:
-            with FilePool(given, mode) as fp:
+            with fp_obj as fp:
                 pool = fp
                 body(fp)
             if route.startswith("raise"):
